@@ -35,25 +35,13 @@ def get_dimensions6(o_dim, ri_dim):
     # Calculate which dimension to put the real and imaginary parts and the
     # orientations. Also work out where the rows and columns in the original
     # image were
-    o_dim = (o_dim % 6)
-    ri_dim = (ri_dim % 6)
-
-    if ri_dim < o_dim:
-        o_dim -= 1
-
-    if o_dim >= 3 and ri_dim >= 3:
-        h_dim = 2
-    elif o_dim >= 4 or ri_dim >= 4:
-        h_dim = 3
-    else:
-        h_dim = 4
-
-    if o_dim >= 4 and ri_dim >= 4:
-        w_dim = 3
-    elif o_dim >= 4 or ri_dim >= 4:
-        w_dim = 4
-    else:
-        w_dim = 5
+    # Positions once the real/imaginary axis has been removed, then shift the
+    # image axes that come after the real/imaginary axis back by one
+    o_dim, ri_dim, h_dim, w_dim = get_dimensions5(o_dim, ri_dim)
+    if ri_dim <= h_dim:
+        h_dim += 1
+    if ri_dim <= w_dim:
+        w_dim += 1
 
     return o_dim, ri_dim, h_dim, w_dim
 
